@@ -18,7 +18,9 @@ RULE = ("cases: (a) synthetic — a periodic structure with 1–4 planted copies
         "atoms), typed on top: 1–2 atom types per element with own labels, unique charges, groups, optional pair table, "
         "optional extra columns, terms of all four kinds INSIDE / OUTSIDE / ACROSS the copies and on exactly the atoms of "
         "pattern terms forwards and REVERSED; a replacement pattern in the search pattern's frame (retained / changed / "
-        "moved / new atoms) with its own types, terms and tables; per term kind one of the 11 compatible table "
+        "moved / new atoms) with its own types, terms and tables — in ~40 % of the cases a RETAINED atom's pattern type "
+        "has the same label and element as the structure's type of that atom but another mass and pair coefficient "
+        "(both pair tables present); per term kind one of the 11 compatible table "
         "combinations (all of them for every kind in the thorough tier); replace_all, replace_fraction; (b) chains — a "
         "second replacement (search = geometry of the first replacement pattern) applied to the result of the first; "
         "(c) the documented workflow on docs/examples (uio66.cif, atom types but no pair table, metal centre then linker, "
@@ -484,6 +486,9 @@ class Batch:
                 ctx.count("combo:%s:%s" % (k, meta["combo"][k]))
         if "ok" not in out:
             ctx.count("raised:%s" % out.get("err"))
+        if meta.get("same_label_types") and not case["opts"].get("replace_all"):
+            ctx.count("same-label-reparameterised-retained-types", meta["same_label_types"])
+            ctx.count("cases-with-same-label-retained-type")
         if stats:
             ctx.count("matches", stats["matches"])
             ctx.count("pattern-terms-checked", stats["pattern_terms"])
